@@ -1,4 +1,4 @@
-import Amshan.Lemmas.GenCode
+import Amshan.Lemmas.GenCodeFcs
 /-
   C03 (tie by translation) — the definitions in Amshan/GeneratedCode.lean are a MECHANICAL translation of
   the Python function bodies of han/fastframecheck.py (harness/pytrans.py, regenerated on every run).
